@@ -84,6 +84,7 @@ def run(ctx):
         ctx.ob("C03.R4", IR + ":" + q, "the uses set is copied before del_use mutates it in the loop", ok, construct="iterate-copy")
 
     _block_refs(ctx)
+    _mem2reg(ctx)
     # R5
     opt = ctx.fn("ppci/api.py", "optimize")
     cfg = CFG(opt)
@@ -137,6 +138,89 @@ def _block_refs(ctx):
     calls = [c for c in calls_in(ct, "set_target_block")]
     ok = bool(calls) and any(isinstance(a, ast.For) and "_block_map" in norm(a.iter) for a in _anc(calls[0])) and not any(isinstance(x, (ast.Break, ast.Return)) for x in ast.walk(ct))
     ctx.ob("C03.R6", IR + ":JumpBase.change_target", "change_target retargets every slot that holds the old block (no early exit after the first)", ok, construct="change-all-slots")
+
+
+def _top_index(fn, node):
+    n = node
+    while getattr(n, "_parent", None) is not fn:
+        n = n._parent
+    return fn.body.index(n)
+
+
+def _mem2reg(ctx):
+    """R7: skeleton of the SSA construction in mem2reg (Cytron et al.): iterated dominance frontier, renaming
+    along the dominator tree with a stack that is restored per block, undef defined where it dominates all uses"""
+    M = "ppci/opt/mem2reg.py"
+    ctx.rule("C03.R7", "mem2reg: phis on the iterated dominance frontier; renaming pushes definitions, feeds successors' phis with the current value and restores the stack per dominator-tree node; the undefined initial value is defined in the function's entry block", floor=9)
+    pr = ctx.fn(M, "Mem2RegPromotor.promote")
+    site = M + ":Mem2RegPromotor.promote"
+    ren = [c for c in calls_in(pr, "rename")]
+    ctx.need(len(ren) == 1 and ren[0].args, "promote: call of rename not found")
+    iv = norm(ren[0].args[0])
+    mk = [n for n in ast.walk(pr) if isinstance(n, ast.Assign) and norm(n.targets[0]) == iv]
+    ctx.ob("C03.R7", site, "the value a variable has before any store is an ir.Undefined of the variable's type", len(mk) == 1 and isinstance(mk[0].value, ast.Call) and norm(mk[0].value.func) == "ir.Undefined", construct="initial-undefined")
+    ins = [c for c in ast.walk(pr) if isinstance(c, ast.Call) and last_name(c) in ("insert_instruction", "add_instruction") and c.args and norm(c.args[0]) == iv]
+    ok = len(ins) == 1 and norm(ins[0].func.value).endswith(".function.entry") and last_name(ins[0]) == "insert_instruction" and not ins[0].keywords and len(ins[0].args) == 1 and ins[0].lineno < ren[0].lineno
+    ctx.ob("C03.R7", site, "that value is inserted at the top of the function's entry block before renaming (the entry block dominates every phi that may receive it; the alloc's own block need not)", ok, construct="initial-in-entry",
+           node=ins[0] if ins else pr, detail=norm(ins[0]) if ins else "")
+    rm = [c for c in calls_in(pr, "remove_from_block") if norm(c.func.value) == "store"]
+    ctx.ob("C03.R7", site, "the promoted stores are removed after renaming used their values", bool(rm) and rm[0].lineno > ren[0].lineno, construct="stores-removed-last")
+    pp = ctx.fn(M, "Mem2RegPromotor.place_phi_nodes")
+    site = M + ":Mem2RegPromotor.place_phi_nodes"
+    wl = [n for n in walk_no_nested(pp) if isinstance(n, ast.While)]
+    ctx.need(len(wl) == 1, "place_phi_nodes: worklist loop not found")
+    work = norm(wl[0].test)
+    phis = [c for c in ast.walk(wl[0]) if isinstance(c, ast.Call) and norm(c.func) == "ir.Phi"]
+    ctx.need(len(phis) == 1, "place_phi_nodes: phi creation not found")
+    guard = [a for a in _anc(phis[0]) if isinstance(a, ast.If)]
+    fl = [a for a in _anc(phis[0]) if isinstance(a, ast.For)]
+    fb = norm(fl[0].target) if fl else "?"
+    body = guard[0] if guard else wl[0]
+    readd = [c for c in ast.walk(body) if isinstance(c, ast.Call) and last_name(c) in ("add", "append") and norm(c.func.value) == work and norm(c.args[0]) == fb]
+    ctx.ob("C03.R7", site, "a block that receives a phi becomes a defining block itself (iterated dominance frontier): it is put back on the worklist", bool(readd), construct="iterated-frontier")
+    ok = bool(guard) and "not in" in norm(guard[0].test) and fb in norm(guard[0].test) and any(isinstance(c, ast.Call) and last_name(c) == "add" and norm(c.args[0]) == fb and norm(c.func.value) in norm(guard[0].test) for c in ast.walk(guard[0]))
+    ctx.ob("C03.R7", site, "a block gets at most one phi per variable (guarded by the has-phi set, which is updated)", ok, construct="one-phi-per-block")
+    src = fl[0].iter if fl else None
+    srct = norm(src)
+    if isinstance(src, ast.Name):
+        a = [n for n in ast.walk(wl[0]) if isinstance(n, ast.Assign) and norm(n.targets[0]) == src.id]
+        srct = norm(a[0].value) if a else srct
+    pops = [n for n in ast.walk(wl[0]) if isinstance(n, ast.Assign) and isinstance(n.value, ast.Call) and last_name(n.value) == "pop" and norm(n.value.func.value) == work]
+    dv = norm(pops[0].targets[0]) if pops else "?"
+    ctx.ob("C03.R7", site, "the candidate blocks are the dominance frontier of the block taken from the worklist", "cfg_info.df[%s]" % dv in srct, construct="frontier-of-popped", detail=srct)
+    ip = [c for c in ast.walk(body) if isinstance(c, ast.Call) and last_name(c) == "insert_instruction" and norm(c.func.value) == fb]
+    ctx.ob("C03.R7", site, "the phi is inserted at the top of the frontier block and returned", bool(ip) and any(isinstance(r, ast.Return) and r.value is not None for r in walk_no_nested(pp)), construct="phi-inserted")
+    rn = ctx.fn(M, "Mem2RegPromotor.rename")
+    site = M + ":Mem2RegPromotor.rename"
+    sr = [f for f in ast.walk(rn) if isinstance(f, ast.FunctionDef) and f is not rn]
+    ctx.need(len(sr) == 1, "rename: recursive search function not found")
+    sf = sr[0]
+    st0 = [n for n in rn.body if isinstance(n, ast.Assign) and isinstance(n.value, ast.List) and len(n.value.elts) == 1 and norm(n.value.elts[0]) == rn.args.args[1].arg]
+    ctx.need(len(st0) == 1, "rename: value stack not found")
+    stack = norm(st0[0].targets[0])
+    pushes = [c for c in ast.walk(sf) if isinstance(c, ast.Call) and norm(c.func) == stack + ".append"]
+    pushed = sorted(norm(c.args[0]) for c in pushes)
+    counted = all(any(isinstance(x, ast.AugAssign) and isinstance(x.op, ast.Add) and norm(x.value) == "1" for x in c._parent._parent.body) for c in pushes if isinstance(getattr(c._parent, "_parent", None), ast.If))
+    ctx.ob("C03.R7", site, "a phi pushes itself and a store pushes the stored value as the current definition, each counted", len(pushes) == 2 and any(p.endswith(".value") for p in pushed) and counted, construct="push-defs", detail=str(pushed))
+    rep = [c for c in ast.walk(sf) if isinstance(c, ast.Call) and last_name(c) == "replace_by"]
+    ctx.ob("C03.R7", site, "a load is replaced by the definition on top of the stack", len(rep) == 1 and norm(rep[0].args[0]) == stack + "[-1]", construct="load-gets-top")
+    si = [c for c in ast.walk(sf) if isinstance(c, ast.Call) and last_name(c) == "set_incoming"]
+    ok = len(si) == 1 and norm(si[0].args[1]) == stack + "[-1]" and any(isinstance(a, ast.For) and "successors" in norm(a.iter) for a in _anc(si[0]))
+    blk = norm(si[0].args[0]) if si else "?"
+    walkb = [l for l in walk_no_nested(sf) if isinstance(l, ast.For) and norm(l.iter) == blk]
+    ctx.ob("C03.R7", site, "every phi of every CFG successor receives (this block, current definition) after the block's instructions were walked", ok and bool(walkb) and walkb[0].lineno < si[0].lineno, construct="feed-successor-phis",
+           detail=norm(si[0]) if si else "")
+    rec = [c for c in ast.walk(sf) if isinstance(c, ast.Call) and norm(c.func) == sf.name]
+    pops = [c for c in ast.walk(sf) if isinstance(c, ast.Call) and norm(c.func) == stack + ".pop"]
+    ok = len(rec) == 1 and len(pops) == 1 and any(isinstance(a, ast.For) and ".children" in norm(a.iter) for a in _anc(rec[0])) and rec[0].lineno < pops[0].lineno and \
+        any(isinstance(a, ast.For) and isinstance(a.iter, ast.Call) and norm(a.iter.func) == "range" for a in _anc(pops[0]))
+    cnt = [a for a in _anc(pops[0]) if isinstance(a, ast.For)] if pops else []
+    cv = norm(cnt[0].iter.args[0]) if cnt and isinstance(cnt[0].iter, ast.Call) and cnt[0].iter.args else "?"
+    inc = [x for x in ast.walk(sf) if isinstance(x, ast.AugAssign) and norm(x.target) == cv]
+    ctx.ob("C03.R7", site, "the dominator-tree children are visited with this block's definitions on the stack, then exactly the definitions pushed in this block are popped", ok and len(inc) == len(pushes) and len(pushes) > 0, construct="stack-restored",
+           detail="%d pushes, %d counted, pop x %s" % (len(pushes), len(inc), cv))
+    start = [c for c in walk_no_nested(rn) if isinstance(c, ast.Call) and norm(c.func) == sf.name]
+    ctx.ob("C03.R7", site, "renaming starts at the root of the dominator tree", len(start) == 1 and "root_tree" in norm(start[0].args[0]), construct="start-at-root")
 
 
 def _writes(project, tree):
